@@ -761,6 +761,45 @@ func (p *printer) binaryExpr(x *ast.BinaryExpr, prec1, cutoff, depth int) {
 	}
 }
 
+// endsWithErrWrap reports whether the text of x ends in `e!` or `e?`: a ':' printed
+// right after it would be read as the start of the default value of `e?:d`.
+func endsWithErrWrap(x ast.Expr) bool {
+	for {
+		switch v := x.(type) {
+		case *ast.ErrWrapExpr:
+			if v.Default == nil {
+				return true
+			}
+			x = v.Default
+		case *ast.BinaryExpr:
+			x = v.Y
+		case *ast.UnaryExpr:
+			x = v.X
+		case *ast.StarExpr:
+			x = v.X
+		case *ast.LambdaExpr:
+			if v.RhsHasParen || len(v.Rhs) == 0 {
+				return false
+			}
+			x = v.Rhs[len(v.Rhs)-1]
+		default:
+			return false
+		}
+	}
+}
+
+// exprBeforeColon prints an expression that is followed by ':' (slice index,
+// map key, range bound), parenthesized if the colon would otherwise be swallowed.
+func (p *printer) exprBeforeColon(x ast.Expr, depth int) {
+	if endsWithErrWrap(x) {
+		p.print(token.LPAREN)
+		p.expr0(x, reduceDepth(depth))
+		p.print(token.RPAREN)
+		return
+	}
+	p.expr0(x, depth)
+}
+
 func isBinary(expr ast.Expr) bool {
 	_, ok := expr.(*ast.BinaryExpr)
 	return ok
@@ -787,7 +826,7 @@ func (p *printer) expr1(expr ast.Expr, prec1, depth int) {
 		p.binaryExpr(x, prec1, cutoff(x, depth), depth)
 
 	case *ast.KeyValueExpr:
-		p.expr(x.Key)
+		p.exprBeforeColon(x.Key, 1)
 		p.print(x.Colon, token.COLON, blank)
 		p.expr(x.Value)
 
@@ -910,7 +949,11 @@ func (p *printer) expr1(expr ast.Expr, prec1, depth int) {
 				}
 			}
 			if x != nil {
-				p.expr0(x, depth+1)
+				if i+1 < len(indices) {
+					p.exprBeforeColon(x, depth+1)
+				} else {
+					p.expr0(x, depth+1)
+				}
 			}
 		}
 		p.print(x.Rbrack, token.RBRACK)
@@ -1062,7 +1105,7 @@ func (p *printer) expr1(expr ast.Expr, prec1, depth int) {
 			p.print(token.LBRACE)
 			if x.Elt != nil {
 				if elt, ok := x.Elt.(*ast.KeyValueExpr); ok {
-					p.expr0(elt.Key, depth+1)
+					p.exprBeforeColon(elt.Key, depth+1)
 					p.print(elt.Colon, token.COLON, blank)
 					p.expr0(elt.Value, depth+1)
 				} else {
@@ -1133,11 +1176,15 @@ func (p *printer) expr1(expr ast.Expr, prec1, depth int) {
 
 	case *ast.RangeExpr:
 		if x.First != nil {
-			p.expr(x.First)
+			p.exprBeforeColon(x.First, 1)
 		}
 		p.print(token.COLON)
 		if x.Last != nil {
-			p.expr(x.Last)
+			if x.Expr3 != nil {
+				p.exprBeforeColon(x.Last, 1)
+			} else {
+				p.expr(x.Last)
+			}
 		}
 		if x.Expr3 != nil {
 			p.print(token.COLON)
